@@ -513,10 +513,7 @@ class CodeGenerator(NodeVisitor):
             self.visit(node.dyn_args, frame)
 
         if kwarg_workaround:
-            if node.dyn_kwargs is not None:
-                self.write(", **dict({")
-            else:
-                self.write(", **{")
+            self.write(", **{")
             for kwarg in node.kwargs:
                 self.write(f"{kwarg.key!r}: ")
                 self.visit(kwarg.value, frame)
@@ -524,14 +521,11 @@ class CodeGenerator(NodeVisitor):
             if extra_kwargs is not None:
                 for key, value in extra_kwargs.items():
                     self.write(f"{key!r}: {value}, ")
-            if node.dyn_kwargs is not None:
-                self.write("}, **")
-                self.visit(node.dyn_kwargs, frame)
-                self.write(")")
-            else:
-                self.write("}")
+            self.write("}")
 
-        elif node.dyn_kwargs is not None:
+        # A second unpacking instead of merging into the dict above, so
+        # a name given twice is an error like it is for plain keywords.
+        if node.dyn_kwargs is not None:
             self.write(", **")
             self.visit(node.dyn_kwargs, frame)
 
